@@ -467,3 +467,94 @@ def gen_pool_scenario(rnd):
     return {"mc": rnd.choice([1, 1, 2, 3]), "n_sources": rnd.randint(1, 3), "n_events": rnd.randint(1, 4),
             "n_jobs": rnd.randint(0, 4), "n_idle": rnd.choice([0, 0, 1, 2, 4]), "susp": rnd.choice([0, 1, 2, 3]),
             "sleep": rnd.choice([0, 0, 0.001, 0.003]), "run_for": 0.03}
+
+
+# ------------------------------------------------------------------------------------------------
+# real stop signals, delivered twice (Ctrl-C twice, a supervisor repeating SIGTERM) while finalisation is slow
+def signal_main(disp):
+    """sub-process: a dispatcher with the default stop signals; prints READY once it runs, F<k> / Fdone<k> around each
+    finalisation, RETURNED when run() has returned"""
+    import sys
+    from harness import common
+    common.ensure_repo_on_path()
+
+    async def go():
+        import basana as bs
+        from basana.core import event as core_event
+        d = bs.backtesting_dispatcher() if disp == "backtesting" else bs.realtime_dispatcher()
+
+        class P(bs.Producer):
+            def __init__(self, k):
+                self.k = k
+
+            async def main(self):
+                if self.k == 0:
+                    print("READY", flush=True)
+                await asyncio.Event().wait()
+
+            async def finalize(self):
+                print("F%d" % self.k, flush=True)
+                await asyncio.sleep(0.5)
+                print("Fdone%d" % self.k, flush=True)
+
+        class Ev(core_event.Event):
+            pass
+        base = datetime.datetime(2022, 1, 1, tzinfo=datetime.timezone.utc)
+
+        class Endless(core_event.FifoQueueEventSource):
+            """keeps the backtest busy: one event per second of simulated time, for ever"""
+            def __init__(self, producer):
+                super().__init__(producer=producer)
+                self.n = 0
+
+            def pop(self):
+                self.n += 1
+                return Ev(base + datetime.timedelta(seconds=self.n))
+
+        async def handler(ev):
+            await asyncio.sleep(0.001)
+        for k in range(2):
+            src = Endless(P(k)) if disp == "backtesting" else core_event.FifoQueueEventSource(producer=P(k))
+            d.subscribe(src, handler)
+        logging.getLogger("basana").setLevel(logging.CRITICAL + 1)
+        await d.run()
+        print("RETURNED", flush=True)
+    asyncio.run(go())
+    sys.exit(0)
+
+
+def signal_probe(disp, signame):
+    """Returns [] if a stop signal delivered twice ends the run in an orderly way, else [(fingerprint, message)]."""
+    import signal
+    import subprocess
+    import sys
+    from harness import common
+    sig = getattr(signal, signame)
+    pr = subprocess.Popen([sys.executable, "-u", "-c",
+                           "from harness import lifecycle_driver as ld; ld.signal_main(%r)" % disp],
+                          stdout=subprocess.PIPE, stderr=subprocess.PIPE, text=True, cwd=common.VERIF)
+    try:
+        line = pr.stdout.readline()
+        if "READY" not in line:
+            pr.kill()
+            return [("lifecycle:signal-probe-crashed", f"{disp}: the probe did not start: {pr.stderr.read()[-800:]}")]
+        time.sleep(0.1)
+        pr.send_signal(sig)
+        time.sleep(0.2)                      # finalisation (0.5 s) is in progress
+        if pr.poll() is None:
+            pr.send_signal(sig)
+        out, err = pr.communicate(timeout=20)
+    except Exception as e:      # noqa
+        pr.kill()
+        return [("lifecycle:not-prompt", f"{disp} / {signame} twice: the process did not end ({e!r})")]
+    lines = out.split()
+    bad = []
+    if pr.returncode != 0 or "RETURNED" not in lines:
+        bad.append(("lifecycle:wrong-outcome",
+                    f"{disp} dispatcher, {signame} delivered twice (the second during finalisation): the process ended "
+                    f"with status {pr.returncode}, output {lines}; run() has to return"))
+    elif sorted(x for x in lines if x.startswith("Fdone")) != ["Fdone0", "Fdone1"] or \
+            sorted(x for x in lines if x.startswith("F") and not x.startswith("Fdone")) != ["F0", "F1"]:
+        bad.append(("lifecycle:not-finalized-exactly-once",
+                    f"{disp} dispatcher, {signame} delivered twice: finalisation output {lines}"))
+    return bad
